@@ -60,6 +60,25 @@ def scenarios(rng, tier):
                 # ... or the frame is longer than its count says (padding, a trailer): entries behind the count are not the list
                 elif rng.random() < 0.35 and pos is not None and pos >= 1: fr = discover(Mx, gen=g, seq=q, stations=stl, count=pos)
                 s.classify(0, fr, fill='10' if stale else rng.choice(['00', 'ff']))
+    # a session that was looked up, then ends in each of the three ways a session can end (removed, table cleared, expired by
+    # the tick while another mapper's session stays): its mapper's next Discover meets no known session
+    for k, how in enumerate(('remove', 'clear', 'expire', 'expire_refreshed')):
+        for acks in (False, True):
+            start('ended_%s_%d' % (how, acks)); M1, M2 = mac(70), mac(71)
+            s.op('adv', 5000); s.op('st_add 0', hx(M1), 3, 4); s.op('st_add 0', hx(M2), 3, 4)
+            s.classify(0, discover(M1, gen=3, seq=4, stations=[own] if acks else [mac(9)]), fill='00')
+            s.classify(0, discover(M1, gen=3, seq=5, stations=[own] if acks else [mac(9)]), fill='00')
+            if how == 'remove': s.op('st_remove 0', hx(M1), 3)
+            elif how == 'clear': s.op('st_clear 0'); s.op('st_add 0', hx(M2), 3, 4)
+            else:
+                s.op('adv', 30000); s.op('st_add 0', hx(M2), 3, 4)
+                if how == 'expire_refreshed': s.classify(0, discover(M2, gen=3, seq=4, stations=[own]), fill='00')
+                # the session that is about to expire is the one looked up last
+                s.classify(0, discover(M1, gen=3, seq=5, stations=[own] if acks else [mac(9)]), fill='00')
+                s.op('adv', 31000); s.op('tick 0')
+            for q_ in (5, 6, 4):
+                s.classify(0, discover(M1, gen=3, seq=q_, stations=[own] if acks else [mac(9)]), fill='00')
+            s.classify(0, discover(M2, gen=3, seq=7, stations=[mac(9)]), fill='00')
     # acknowledged at index p before; now the count ends before p while the frame still holds bytes there (padding / trailer)
     for p_ in (1, 2, 5):
         for known in (True, False):
